@@ -15,7 +15,7 @@ CLAIMED = {
             "Trusted: reference model in harness/src/props/plan.rs (ApiModel), snapshot accessors (read-only hooks).",
             "5/C02", "oxv"),
     "C03": ("proptest-generated worlds with walls thinner than the step; validity-query log coverage (oracle A) and dense re-check (oracle B) per path segment",
-            "For every segment of every returned path: (A) the logged, accepted validity queries lying on the segment leave no gap longer than the space's longest-valid-segment length; (B) an independent dense interpolation (L/64) through the pure world finds no invalid stretch >= L. Edge kinds (extension, RRT* rewired / chosen parent, RRT-Connect sides and junction, PRM start connection / milestone link) are classified and counted; a second part grows RRT* trees over 3-6 solve calls with large neighbourhoods so that rewired and chosen-parent edges are on 80% of the returned paths.",
+            "For every segment of every returned path: (A) the logged, accepted validity queries lying on the segment leave no gap longer than the space's longest-valid-segment length; (B) an independent dense interpolation (L/64) through the pure world finds no invalid stretch >= L. Edge kinds (extension, RRT* rewired / chosen parent, RRT-Connect sides and junction, PRM start connection / milestone link) are classified and counted; a second part grows RRT* trees over 3-6 solve calls with large neighbourhoods so that rewired and chosen-parent edges are on 80% of the returned paths. 30% of the cases plan on the library's own space object rather than the recording wrapper, so that overrides of trait methods the wrapper cannot forward are executed.",
             "Trusted: the logging checker wrapper, the on-segment metric test with the tolerances of DESIGN.md section 4. Resolution fractions > 0 only.",
             "5/C03", "oxv"),
     "C04": ("proptest-generated bounded spaces (boxes, SO2 intervals of any span, SO3 cones, compounds) vs. independent reference membership",
@@ -50,27 +50,27 @@ CLAIMED = {
 
 CLAIMED.update({
     "C06": ("proptest-generated timed runs (real wall clock, no budget) on feasible and by-construction infeasible worlds; in-process watchdog for non-termination",
-            "Timed solve / construct_roadmap calls with limits 0-50 ms over 4 planners x 6 kinds x feasible worlds and three infeasible families (goal sealed by a shell of thickness >= 1.1 L, goal region invalid, start sealed), plus degenerate resolutions: elapsed <= T + 1 s (confirmed by 3 repetitions before it counts), never Ok on an infeasible world, and every call returns within a 20 s watchdog.",
-            "Wall-clock oracle with a generous allowance: late-by-less-than-1 s is invisible; 'never blocks' is 'returned within the watchdog on every generated case'.",
+            "Timed solve / construct_roadmap calls with limits 0-50 ms over 4 planners x 6 kinds x feasible worlds and three infeasible families (goal sealed by a shell of thickness >= 1.1 L, goal region invalid, start sealed), a fourth family (feasible query, then setup() with a checker that seals the goal), degenerate resolutions, minute steps (1e-7 of the start-goal distance, or 0) and boxes with an unbounded coordinate: elapsed <= T + 1 s (confirmed by 3 repetitions before it counts); at most one iteration draws its sample later than T after the first one (iterations started after the deadline, read from the instants of the sampler calls - independent of iteration cost); never Ok on a world that is infeasible at the documented resolution; every call returns within a 20 s watchdog.",
+            "The elapsed-time clause has a generous allowance (late-by-less-than-1 s is invisible to it); the late-iteration clause is exact but sees only loops that draw samples. 'Never blocks' is 'returned within the watchdog on every generated case'. Infeasibility is judged with a reference value of the resolution (fraction x documented extent), not with what the space reports.",
             "5/C06", "oxv"),
     "C07": ("differential: two planner instances driven through the same generated call history in one process (Rust core; Python bindings via Hypothesis); metamorphic: a call cut by a real timeout after k iterations equals the call cut by budget k; prefix relation across budgets",
             "Two instances built from the same case (seed, problem, history with repeated solve / re-setup / PRM construct / problem replacement, RNG-consuming goals) must agree after every step on results (bit for bit) and on tree / roadmap snapshots; the node sequence after budget N, budget N+k and a real 0.2-3 ms timeout must be prefix-related; a call cut by a real timeout after k started iterations and the same call cut by an iteration budget of k must leave bit-identical trees / roadmaps and return identical results, also on the following call; two fresh oxmpl_py planners per Hypothesis scenario must return identical results (every planner x problem-variant arm of the bindings).",
             "Trusted: snapshot accessors and iteration budget (feature verif). Hash-order dependence is covered because both instances live in one process with distinct RandomStates.",
             "5/C07", "oxv"),
     "C08": ("model-based testing: exhaustive call sequences up to length 4/6 per planner + fault enumeration (sampler failing at its k-th call, out-of-range parameters, empty start list) + random histories, against a reference model of the API state; all calls under catch_unwind",
-            "Every call sequence up to length 4 (quick) / 6 (thorough) over {setup(P1), setup(P2), construct_roadmap, set_problem_definition(P2), solve} per planner, sampler faults at every k < 12, goal-bias / step / radius out of range, empty start lists, zero-sample roadmaps, plus 4000 random histories with faults: no call may unwind, every result must be in the reference model's allowed set, every Ok must answer the current problem; a second part runs the well-formed generators and requires zero panics.",
+            "Every call sequence up to length 4 (quick) / 6 (thorough) over {setup(P1), setup(P2), construct_roadmap, set_problem_definition(P2), solve} per planner, sampler faults at every k < 12 (once, or persisting from the k-th call on), goal-bias / step / radius out of range, empty start lists, zero-sample roadmaps, plus 4000 random histories with faults: no call may unwind or fail to return (30 s watchdog), every result must be in the reference model's allowed set, every Ok must answer the current problem; a second part runs the well-formed generators and requires zero panics.",
             "Trusted: reference model (ApiModel) in harness/src/props/plan.rs and c08.rs. Three known findings (goal_bias outside [0,1] panics in random_bool) excluded by exact planner/op/message/file signature.",
             "5/C08", "oxv"),
     "C14": ("statistical PBT: KS / chi-square goodness of fit of 2e5-1e6 draws per generated bound setting against the exact marginal laws, alpha = 1e-9 with confirmation on a second seed",
-            "Per generated setting (96 quick / 360 thorough; boxes of 1-20 dimensions, SO2 intervals incl. requests outside [-pi, pi], cones from 0.12 rad, compounds, SE2/SE3): Kolmogorov-Smirnov of every coordinate, angle, rotation angle (theta - sin theta law conditioned on the cone), axis z-component and azimuth against the exact CDF, sign symmetry of the quaternion, 8x8 chi-square for independence of every pair of marginals.",
-            "Statistical: cannot see biases below about 1%; asymptotic tail formulas; cones of radius < 0.12 rad not sampled (rejection sampling cost).",
+            "Per generated setting (96 quick / 360 thorough; boxes of 1-20 dimensions, SO2 intervals incl. requests outside [-pi, pi], boxes sharing a bound across coordinates, cones from 0.06 rad, compounds, SE2/SE3): Kolmogorov-Smirnov of every coordinate, angle, rotation angle (theta - sin theta law conditioned on the cone), axis z-component and azimuth against the exact CDF, sign symmetry of the quaternion, 8x8 chi-square for independence of every pair of marginals.",
+            "Statistical: cannot see biases below about 1%; asymptotic tail formulas; cones of radius < 0.06 rad not sampled (rejection sampling cost).",
             "5/C14", "oxv"),
     "C15": ("bounded-exhaustive explicit-state exploration of the real planners under a scripted sampler (all sample sequences to depth 5/6 over a 6-7 state alphabet, de-duplicated by tree snapshot) + stepwise random runs + chunked/timed runs; tree invariant after every iteration",
             "Every reachable tree (up to the stated depth over the stated alphabet and worlds; about 1.5e6 sequences in the quick tier) and every intermediate tree of 5000 (quick) random stepwise runs of 30-150 iterations is checked: indices, single root, acyclic, root identity, node validity, every new or changed edge motion-checked (oracles A and B) and within the extension limit, RRT* cost >= branch length, returned path = parent walk; plus re-setup histories on one planner object (second problem with a rejected start or a stricter checker), judged against the problem and world in effect. A hang of path extraction is reported as a violation by the watchdog.",
             "Exhaustive only over the stated alphabet / depth / worlds. Trusted: snapshot accessors, scripted sampler wrapper.",
             "5/C15", "oxv"),
     "C16": ("same exploration; per-iteration transition oracle from a reference model of one RRT / RRT-Connect / RRT* iteration; goal-bias frequency by Hoeffding bound on long seeded runs",
-            "For every explored transition: the new state equals the sample (within the step) or interpolate(nearest, sample, step/dist) bit for bit for some nearest node (ties allowed), it is added iff the iteration's first motion check passed (queries grouped per motion check by the scope hook) and that check ran along the segment from a nearest node to the new state, nothing else changes; an extension that is valid but was never attempted is a violation; RRT-Connect grows the smaller tree first and then extends the other toward the new node (a missing connect attempt is a violation). Goal bias 0 / 1 exactly, p in (0,1) within the Hoeffding bound at 1e-9.",
+            "For every explored transition: the new state equals the sample (within the step) or interpolate(nearest, sample, step/dist) bit for bit for some nearest node (ties allowed), it is added iff the iteration's first motion check passed (queries grouped per motion check by the scope hook) and that check ran along the segment from a nearest node to the new state, nothing else changes; an extension that is valid but was never attempted is a violation; one call of k iterations and k calls of one iteration (same seed) must leave bit-identical trees (call-boundary invariance); RRT-Connect grows the smaller tree first and then extends the other toward the new node (a missing connect attempt is a violation). Goal bias 0 / 1 exactly, p in (0,1) within the Hoeffding bound at 1e-9.",
             "Trusted: reference model in harness/src/props/trees.rs; the planner's own metric (decided by C09) is used to determine 'nearest'.",
             "5/C16", "oxv"),
     "C17": ("same exploration restricted to RRT* + stepwise random runs: bit-exact cost bookkeeping, arg-min parent modulo rejected motions, rewiring exactly when strictly cheaper; differential RRT vs RRT* on the same seed",
@@ -82,11 +82,11 @@ CLAIMED.update({
             "Trusted: roadmap snapshot accessor, sample budget hook, scripted / recording sampler.",
             "5/C18", "oxv"),
     "C19": ("Hypothesis-generated scenarios run through oxmpl_py and through the Rust core (persistent reference server), compared bit for bit; wrapper constructors over the C12 lattice",
-            "1600 (quick) / 16000 (thorough) generated scenarios (8 worker processes) over the six from_* variants x {RRT, RRTConnect, RRTStar}, with resolution fractions inside and outside (0,1] and thin slabs whose crossing depends on the resolution: outcome class and every float of the path as 64-bit patterns against the Rust core run on the same PlanCase; PRM paths checked for soundness against the Python callbacks (dense re-check through the core's interpolation); about 2000 wrapper constructor / getter / distance comparisons over the special-value lattice (ValueError <=> core Err).",
+            "1600 (quick) / 16000 (thorough) generated scenarios (8 worker processes) over the six from_* variants x {RRT, RRTConnect, RRTStar}, with resolution fractions inside and outside (0,1] and thin slabs whose crossing depends on the resolution: outcome class and every float of the path as 64-bit patterns against the Rust core run on the same PlanCase; PRM paths checked for soundness against the Python callbacks (dense re-check through the core's interpolation); about 2000 wrapper constructor / getter / distance comparisons over the special-value lattice (ValueError <=> core Err); for every scenario space.distance of start-target, target-start, a state with itself and with an equal copy against the core, bit for bit.",
             "Callbacks restricted to comparisons and the wrapped space.distance so that both languages compute bit-identical functions; examples that time out on either side are discarded and counted (run is inconclusive above 25%).",
             "5/C19", "py"),
-    "C20": ("Hypothesis-generated fault plans (raise / None / non-bool, by region or at the k-th call) on validity and goal callbacks; metamorphic comparison with callbacks returning False at the same points",
-            "Run A (failing callbacks) versus run B (callbacks returning False exactly where A's failed), same seed: identical outcome and bit-identical path for RRT / RRT-Connect / RRT*; for region faults (centred on a goal target, the start or a random state; radius from 1e-3 of the extent) no state of the returned path lies in the fault region (all four planners).",
+    "C20": ("Hypothesis-generated fault plans (raise Exception and BaseException subclasses / None / non-bool, by region or at the k-th call; callback objects that are not callable, take no argument or are C functions) on validity and goal callbacks; metamorphic comparison with callbacks returning False at the same points",
+            "Run A (failing callbacks) versus run B (callbacks returning False exactly where A's failed), same seed: identical outcome and bit-identical path for RRT / RRT-Connect / RRT*; a callback failure that comes out of setup / construct_roadmap / solve as an exception is a violation; for region faults (centred on a goal target, the start or a random state; radius from 1e-3 of the extent) no state of the returned path lies in the fault region (all four planners).",
             "Python bindings only: the JavaScript half of the anchor cannot be built or run in this sandbox.",
             "5/C20", "py"),
 })
